@@ -15,25 +15,26 @@ def run(tier: str, keep: bool = False) -> int:
     r = Run(PROP, tier)
     q = r.quick
     sizes = "{0, 1, 3}" if q else "{0, 1, 2, 3, 4}"
-    fam = f"FamAck(3, {sizes})"
+    fam1, fam2 = f"FamAck(2, {sizes})", f"FamAck(3, {sizes})"       # every limit = K + 1: the weakest configuration the statement allows
     inv = ["C01", "DoneIsGood"]
     # the design: every schedule with at most K faults ends well, and does end
-    r.model("canonK1", fam, K=1, faults=FAULTS, invariants=inv, properties=["CompletesKf"], fair=True)
-    r.model("freeK1", "FamAck(3, {1, 2})", K=1, faults=FAULTS + ["delay"], pacing="free", invariants=inv, ticks=[1000])
-    r.model("canonK2", fam, K=2, faults=FAULTS, invariants=inv)
+    r.model("canonK1", fam1, K=1, faults=FAULTS, invariants=inv, properties=["Completes"], fair=True)
+    r.model("freeK1", "FamAck(2, {1, 2})", K=1, faults=FAULTS + ["delay"], pacing="free", invariants=inv, ticks=[1000])
+    r.model("canonK2", fam2, K=2, faults=FAULTS, invariants=inv, properties=["Completes"], fair=True)
+    r.model("freeK2", "FamAck(3, {2})", K=2, faults=FAULTS + ["delay"], pacing="free", invariants=inv, timeout=1500)
     if not q:
-        r.model("freeK2", "FamAck(3, {2})", K=2, faults=FAULTS + ["delay"], pacing="free", invariants=inv, timeout=1500)
-        r.model("canonK3", "FamAck(4, {0, 1, 3})", K=3, faults=FAULTS, invariants=inv, timeout=1500)
+        r.model("freeK2b", "FamAck(3, {1, 3})", K=2, faults=FAULTS + ["delay"], pacing="free", invariants=inv, ticks=[400, 1000], timeout=2400)
+        r.model("canonK3", "FamAck(4, {0, 1, 3})", K=3, faults=FAULTS, invariants=inv, timeout=2400)
     # the code: all K <= 1 schedules (quick) / K <= 2 (thorough) under canonical pacing, random pacing by simulation
     props = ["C01", "C03", "C06", "C10", "C15"]
-    r.schedules("schedK1", fam, props, K=1, faults=FAULTS)
-    r.schedules("schedK2", fam, props, K=2, faults=FAULTS, limit=600 if q else None)
+    r.schedules("schedK1", fam1, props, K=1, faults=FAULTS)
+    r.schedules("schedK2", fam2, props, K=2, faults=FAULTS, limit=600 if q else None)
     r.schedules("simFree", "FamAck(3, {1, 3})" if q else "FamAck(4, {1, 3, 5})", props, K=2, faults=FAULTS + ["delay"],
                 pacing="free", ticks=[400, 1000], simulate=dict(num=300 if q else 6000, depth=100), maxhist=100, workers=4)
     r.judge()
     return r.finish(assumptions=["faults: drop / duplicate / swap of the PDU delivered next, delay = time passing while PDUs are in "
                                  "flight; closed transactions are answered by the entity layer (ACK of EOF / Finished)",
-                                 "model bounds: 1-byte segments, files of 0..4 segments, K <= 3, limits K+1"], keep=keep)
+                                 "model bounds: 1-byte segments, files of 0..4 segments, K <= 3, every limit = K + 1"], keep=keep)
 
 
 def replay(path: str) -> int:
